@@ -156,6 +156,8 @@ def isAbort {α} : Res α → Bool
 structure Hist where
   r : Reader
   markers : Array Marker
+  /-- marker returned by the last successful G1 call, not yet consumed by a G2 call -/
+  pending : Option Marker := none
   outs : Array String
   stopped : Bool
 
@@ -166,7 +168,11 @@ def histOp (msg : Bytes) (h : Hist) (op : String) : Hist :=
   if h.stopped then h else
   let push (h : Hist) (s : String) (abort : Bool) (r : Reader) : Hist :=
     { h with outs := h.outs.push s, stopped := abort, r := r }
-  let last : Option Marker := h.markers.back?
+  let head := (op.splitOn ":").headD ""
+  let isG2 := head == "sk" || head == "db" || head == "dt" || head == "op"
+  let moves := ["mk", "hr", "hh", "hi", "seek", "hd", "q", "qr", "tq", "tqr", "sq", "skx", "dbx", "dtx", "opx"].contains head
+  let last : Option Marker := if isG2 then h.pending else none
+  let h : Hist := if isG2 || moves then { h with pending := none } else h
   match op.splitOn ":" with
   | ["hd"] =>
     let (o, r) := h.r.header msg
@@ -189,7 +195,7 @@ def histOp (msg : Bytes) (h : Hist) (op : String) : Hist :=
           | "mk" => .marker | "hr" => .ref | "hh" => .owned .heap | _ => .owned .inline
         let (o, r) := h.r.recordHeader msg k
         let h' := match o with
-          | .ok (_, m) => { h with markers := h.markers.push m }
+          | .ok (_, m) => { h with markers := h.markers.push m, pending := some m }
           | _ => h
         push h' (showE (fun (hn, m) => showMarker m ++ (match hn with
           | .none => ""
@@ -203,6 +209,7 @@ def histOp (msg : Bytes) (h : Hist) (op : String) : Hist :=
         | none => push h "nomarker" false h.r
       | "op" => match last with
         | some m =>
+          if m.rtype != 41 then push h "notopt" false h.r else
           let (o, r) := h.r.optRecord m
           push h (showE (fun x => s!"O:{x.udpPayloadSize}:{x.rcodeExtension}:{x.version}:{x.flags}") o) (isAbort o) r
         | none => push h "nomarker" false h.r
@@ -236,6 +243,12 @@ def histOp (msg : Bytes) (h : Hist) (op : String) : Hist :=
     | some m => push h ("R:" ++ showNameRef msg (h.r.nameRefAt m)) false h.r
     | none => push h "nomarker" false h.r
   -- G2 calls with an arbitrary earlier marker (C17: out-of-order use)
+  | ["opx", i] =>
+    match i.toNat? >>= (h.markers[·]?) with
+    | some m =>
+      let (o, r) := h.r.optRecord m
+      push h (showE (fun x => s!"O:{x.udpPayloadSize}:{x.rcodeExtension}:{x.version}") o) (isAbort o) r
+    | none => push h "nomarker" false h.r
   | ["skx", i] =>
     match i.toNat? >>= (h.markers[·]?) with
     | some m => let (o, r) := h.r.skipData m; push h (showE (fun _ => "ok") o) (isAbort o) r
@@ -260,6 +273,39 @@ def answerReader (msg : Bytes) (ops : List String) : String :=
   | .ub => "ub"
   | .ok r =>
     let h := ops.foldl (histOp msg) { r := r, markers := #[], outs := #[], stopped := false }
+    String.intercalate " " h.outs.toList
+
+/-- markers of a message collected by one sequential pass (`record_marker` + `skip_record_data`) -/
+def collectMarkers (msg : Bytes) : Array Marker :=
+  match Reader.new msg with
+  | .ok r0 =>
+    match r0.header msg with
+    | (.ok _, r1) =>
+      match r1.skipQuestions msg with
+      | (.ok (), r2) =>
+        let rec go (fuel : Nat) (r : Reader) (acc : Array Marker) : Array Marker :=
+          match fuel with
+          | 0 => acc
+          | fuel + 1 =>
+            match r.recordHeader msg .marker with
+            | (.ok (_, m), r') =>
+              match r'.skipData m with
+              | (.ok (), r'') => go fuel r'' (acc.push m)
+              | _ => acc.push m
+            | _ => acc
+        go (r2.sFuel 0 + 1) r2 #[]
+      | _ => #[]
+    | _ => #[]
+  | _ => #[]
+
+/-- `xmark <hexA> <hexB> <op>…` -/
+def answerXMark (a b : Bytes) (ops : List String) : String :=
+  match Reader.new b with
+  | .err e => "err " ++ showErr e
+  | .panic k => showPanic k
+  | .ub => "ub"
+  | .ok r =>
+    let h := ops.foldl (histOp b) { r := r, markers := collectMarkers a, outs := #[], stopped := false }
     String.intercalate " " h.outs.toList
 
 /-! ### iterator API, record sets, NameRef::eq -/
@@ -335,6 +381,10 @@ def answer (line : String) : String :=
     match parseHex hex with
     | some msg => answerReader msg ops
     | none => "bad-request"
+  | "xmark" :: ha :: hb :: ops =>
+    match parseHex ha, parseHex hb with
+    | some a, some b => answerXMark a b ops
+    | _, _ => "bad-request"
   | ["iter", hex] =>
     match parseHex hex with
     | some msg => answerIter msg
@@ -365,6 +415,44 @@ def answer (line : String) : String :=
       showRes (fun (w, n) => s!"{n} {toHex (w.buf.extract 0 w.pos)} rest={(w.buf.extract w.pos w.buf.size).all (· == 0xFF)}")
         ((WCur.new c).writeDomainName s)
     | _, _ => "bad-request"
+  | ["rt", pos, hex] =>
+    match pos.toNat?, parseHex hex with
+    | some p, some msg =>
+      match readName .heap msg (Cur.withPos msg p), readName .inline msg (Cur.withPos msg p) with
+      | .ok (t, _), .ok (t2, _) =>
+        if t != t2 then "heap-inline-disagree" else
+        let sh (r : Res Bytes) : String := match r with
+          | .ok _ => "ok" | .err e => "err:" ++ showErr e | .panic k => showPanic k | .ub => "ub"
+        let shu (r : Res Unit) : String := match r with
+          | .ok _ => "ok" | .err e => "err:" ++ showErr e | .panic k => showPanic k | .ub => "ub"
+        let p1 := parseName .heap t
+        let p2 := parseName .inline t
+        let same := (match p1 with | .ok m => m == t && nameEq m t | _ => false) &&
+                    (match p2 with | .ok m => m == t | _ => false)
+        s!"ok {toHex t} heap={sh p1} inline={sh p2} check={shu (checkNameBytes t)} same={same}"
+      | .err e, .err _ => "err " ++ showErr e
+      | .panic k, _ => showPanic k
+      | .ub, _ => "ub"
+      | _, _ => "heap-inline-disagree"
+    | _, _ => "bad-request"
+  | ["enc", hex] =>
+    match parseHex hex with
+    | some s =>
+      let b2n (b : Bool) : String := if b then "1" else "0"
+      let pstr := if isUtf8 s then b2n (parseName .heap s).isOk ++ b2n (parseName .inline s).isOk else "--"
+      let chk := b2n (checkNameBytes s).isOk
+      match (WCur.new 600).writeDomainName s with
+      | .ok (w, n) =>
+        let wire := w.buf.extract 0 n
+        match readName .heap wire (Cur.withPos wire 0) with
+        | .ok (t, c) => s!"ok {n} dec={toHex t} next={c.pos} parse={pstr} check={chk}"
+        | .err e => s!"ok {n} dec=!{showErr e} parse={pstr} check={chk}"
+        | .panic k => showPanic k
+        | .ub => "ub"
+      | .err e => s!"err {showErr e} parse={pstr} check={chk}"
+      | .panic k => showPanic k
+      | .ub => "ub"
+    | none => "bad-request"
   | ["cmp", ha, hb] =>
     match parseHex ha, parseHex hb with
     | some a, some b => if isUtf8 a && isUtf8 b then answerCmp a b else "badname"
